@@ -539,6 +539,9 @@ func (c *Ctx) callByContract(fr *Frame, st *State, spec *FuncSpec, key string, a
 		switch cl.Kind {
 		case "ensures":
 			c.assumeUnder(st, c.evalBool(post, cl.E))
+		case "assume":
+			// definitional assumptions about uninterpreted spec functions hold in every state they mention
+			c.assumeUnder(st, c.evalBool(env, cl.E))
 		}
 	}
 	for _, pc := range pconds {
